@@ -102,6 +102,10 @@ type BMC struct {
 	// extension commands).
 	Fallback Handler
 
+	// RMCPSeq, if non-zero, is the RMCP sequence number of every IPMI-class reply
+	// (default 0xFF).
+	RMCPSeq byte
+
 	// NumberPlain makes the BMC put a running, non-zero sequence number in the
 	// packets it sends outside a session.
 	NumberPlain bool
@@ -148,6 +152,15 @@ func (b *BMC) Receive(d []byte) *Rx {
 	b.process(rx)
 	if b.Intercept != nil {
 		b.Intercept(b, rx)
+	}
+	if b.RMCPSeq != 0 {
+		// a BMC that numbers its RMCP messages (the console must still send 0xFF,
+		// "no ACK wanted", in its own)
+		for i := range rx.Replies {
+			if d := rx.Replies[i].Data; len(d) >= 4 && d[0] == 0x06 && d[3] == 0x07 {
+				d[2] = b.RMCPSeq
+			}
+		}
 	}
 	return rx
 }
